@@ -191,9 +191,11 @@ CLAIMED = {
          "exact rational energies, exp decided against 60-digit enclosures) of the four annealers built from /repo's C "
          "sources, on dict / labelled / Matrix inputs, plus an implementation-side oracle of the property.",
     note="Trusted: Coq kernel + vm_compute; no axioms; hand-written model of _anneal.py and of the C kernels; mpmath enclosures "
-         "of exp; gcc build of the extension from /repo sources; harness. The facts that the prepared model of a labelled "
-         "input is valid for its N (keys < N, distinct) are hypotheses of the kernel theorems (qvalid, NoDup), established "
-         "by C14/C04 theorems for the relabelling and checked on every case by the correspondence. res.best is C13's theorem.",
+         "of exp; gcc build of the extension from /repo sources; harness. The kernel theorems assume a valid prepared model "
+         "(qvalid, NoDup); C11_prepared_matrix / C11_prepared_labelled prove that for Matrix and labelled quadratic inputs "
+         "from the C14 invariant and canonical storage, and C11_anneal_quso_matrix is the end-to-end statement for "
+         "anneal_quso on a QUSOMatrix; the other three entry points are covered at kernel level + correspondence. "
+         "res.best is C13's theorem.",
     technique="Coq proof (invariants over the kernel loops) + bit-exact model/implementation correspondence", ref="§5 C11"),
  "C12": dict(
     text="Coq theorems: both kernels ARE the single-spin Metropolis chain with the model's exact energy differences, step for "
